@@ -368,6 +368,30 @@ def check_witness(match, pattern_text, student_root, problems):
     if not mappings:
         problems.append(('empty-mapping', ''))
         return
+    def top_of(k):
+        while getattr(k, 'parent', None) is not None:
+            k = k.parent
+        return k.astNode
+    roots = {}
+    for k in mappings:
+        roots.setdefault(id(top_of(k)), (top_of(k), []))[1].append(k)
+    chosen = None
+    if len(roots) > 1:
+        # the match of a sub-query carries the pairs of the earlier match along: judge the tree of THIS pattern
+        try:
+            want = ast.unparse(ast.parse(pattern_text)).strip()
+        except SyntaxError:
+            want = None
+        for rid, (rnode, ks) in roots.items():
+            try:
+                if want is not None and ast.unparse(rnode).strip() == want:
+                    chosen = rid
+            except Exception:
+                pass
+        if chosen is None:
+            problems.append(('pairs-of-several-pattern-trees-and-none-is-this-pattern', ''))
+            return
+        mappings = {k: v for k, v in mappings.items() if id(top_of(k)) == chosen}
     pairs = [(k.astNode, v.astNode) for k, v in mappings.items()]
     partner = {id(a): b for a, b in pairs}
     proot = pattern_root_of(mappings)
@@ -443,6 +467,11 @@ def check_witness(match, pattern_text, student_root, problems):
             if isinstance(pa, ast.Expr):
                 continue
             problems.append(('child-not-under-partner-of-parent', '%s under %s' % (type(a).__name__, type(pa).__name__)))
+        elif sinfo[1] != field:
+            # same parent, other role: the callee paired with an argument, a body statement with one of the else part ...
+            commutative = isinstance(pa, ast.BinOp) and isinstance(pa.op, (ast.Add, ast.Mult)) and {field, sinfo[1]} <= {'left', 'right'}
+            if not commutative and type(pa) is type(pb):
+                problems.append(('child-in-another-field-of-the-partner', '%s.%s paired with %s.%s' % (type(pa).__name__, field, type(pb).__name__, sinfo[1])))
     # sibling order within list fields
     by_parent = {}
     for a, b in pairs:
